@@ -10,6 +10,7 @@ import (
 	"encoding/json"
 	"fmt"
 	"math"
+	"strings"
 
 	"github.com/pkg/errors"
 
@@ -302,6 +303,22 @@ func (p *Parser) keyAsTransmitted(compactJWS, member string, key *jws.JWK) inter
 	var transmitted jws.JWK
 	if err := json.Unmarshal(raw, &transmitted); err != nil || transmitted != *key {
 		return key
+	}
+
+	// the same goes for the members of the key itself: the hash of the transmitted value does not depend on the order
+	// of its members, the key model does when two of them differ in case only ("x" and "X" - the later one wins), so
+	// that one hash would stand for two keys
+	var keyMembers map[string]json.RawMessage
+	if err := json.Unmarshal(raw, &keyMembers); err != nil {
+		return key
+	}
+
+	for name := range keyMembers {
+		for _, field := range []string{"kty", "crv", "x", "y", "nonce"} {
+			if name != field && strings.EqualFold(name, field) {
+				return key
+			}
+		}
 	}
 
 	return []byte(raw)
